@@ -1,4 +1,5 @@
 import MJ.Proofs.SliceFwd
+import MJ.Proofs.PySliceSpec
 /-!
 # C09 — subscripts and slices follow Python's rules for every bound and step
 
@@ -153,6 +154,23 @@ theorem index_eq_python {α : Type} (xs : List α) (i : Int) :
       simp only [Option.bind_none]
       apply List.getElem?_eq_none
       omega
+
+/-! ## The specification itself is Python's declarative rule (sanity of the transcription) -/
+
+/-- positive step `k`: exactly the positions `lo ≤ i < hi`, `i ≡ lo (mod k)`, in increasing order -/
+theorem spec_pos (len : Nat) (start stop : Option Int) (k : Nat) (hk : 0 < k) :
+    (∀ i : Nat, i ∈ PySlice.indices len start stop (k : Int) ↔
+      PySlice.clampPos len start 0 ≤ (i : Int) ∧ (i : Int) < PySlice.clampPos len stop len ∧
+      ((i : Int) - PySlice.clampPos len start 0) % (k : Int) = 0) ∧
+    (PySlice.indices len start stop (k : Int)).Pairwise (· < ·) :=
+  ⟨PySlice.mem_indices_pos len start stop k hk, PySlice.indices_pos_sorted len start stop k hk⟩
+
+/-- negative step `-k`: exactly the positions `stop' < i ≤ start'`, `i ≡ start' (mod k)` -/
+theorem spec_neg (len : Nat) (start stop : Option Int) (k : Nat) (hk : 0 < k) (i : Nat) :
+    i ∈ PySlice.indices len start stop (-(k : Int)) ↔
+      PySlice.clampNeg len stop (-1) < (i : Int) ∧ (i : Int) ≤ PySlice.clampNeg len start ((len : Int) - 1) ∧
+      (PySlice.clampNeg len start ((len : Int) - 1) - (i : Int)) % (k : Int) = 0 :=
+  PySlice.mem_indices_neg len start stop k hk i
 
 /-! ## Non-vacuity: the hypotheses are met by ordinary inputs, and the statement has content. -/
 example : slice [10, 11, 12, 13, 14] (some 4) (some 0) (some (-1)) = .ok (.ok [14, 13, 12, 11]) := by decide
